@@ -18,6 +18,7 @@ import copy, itertools, json, os, random, re, threading, concurrent.futures as c
 from vlib import Infra, log, read_ndjson
 
 NMENU = 44
+NOLD = 31        # EncodingSets.SizedFullMax: the later items repeat node kinds with other key / entry types, unions, choice members
 FUZZ_ITEMS = [1, 6, 7, 8, 10, 12, 13, 16, 20]
 # menu items that are or contain a list / leaf-list (EncodingSets.Menu); only used to make sure that some of the
 # larger schemas hold collections next to other nodes, the sized trees themselves come from EncodingSets.SizedTrees
@@ -42,6 +43,8 @@ def schema_sets(ctx):
         pairs = rnd.sample(pairs, 30)
         big = rnd.sample(triples, 6) + [tuple(sorted(rnd.sample(range(1, NMENU + 1), 8)))]
     else:
+        # all pairs of the items up to NOLD, a seeded sample of the pairs with a later item (same node kinds, other types)
+        pairs = [p for p in pairs if p[1] <= NOLD] + rnd.sample([p for p in pairs if p[1] > NOLD], 150)
         big = rnd.sample(triples, 150) + [tuple(sorted(rnd.sample(range(1, NMENU + 1), k))) for k in (5, 8, 12, NMENU)]
     # collections among many siblings: two collections and four other items; every item of the menu
     others = [i for i in range(1, NMENU + 1) if i not in COLLECTIONS]
@@ -177,7 +180,7 @@ def run(ctx):
     ffiles = [ctx.path("events", f"fuzz_{i}.ndjson") for i in range(nproc)]
 
     # 3. every event judged by the trace spec
-    chunks = split_events(ctx, rfiles + ffiles, nproc if ctx.quick() else 3 * nproc)
+    chunks = split_events(ctx, rfiles + ffiles, nproc if ctx.quick() else 4 * nproc)
     nevents = sum(n for _, n in chunks)
     if nevents != nreplay + fst["events"]:
         raise Infra(f"{nevents} events in files, harness reported {nreplay + fst['events']}")
@@ -208,14 +211,16 @@ def run(ctx):
              "distinct = distinct (schema, tree) pairs generated by TLC whose tree has at least one data node",
         samples=samples, schemas=len(exh) + len(big), schemas_exhaustive=len(exh), trees=ntrees, replay_events=nreplay,
         fuzz_events=fst["events"], fuzz_fatal=fst["fatal"], class_string_maxlen=maxlen, random_inputs=nrand, exhaustive=True,
-        explanation="TLC explored every valid tree of every selected one- and two-item schema of the menu (thorough: all 31 + 465) on the spec (round trip, mutants), "
+        explanation="TLC explored every valid tree of every selected one- and two-item schema of the menu (thorough: all 44 + 465 + 150) on the spec (round trip, mutants), "
                     "plus the sized trees (every list / leaf-list with 1, 2, 12, 13, 20, 40, 100 entries - 2, 13, 40 beside other items - in four arrangements "
                     "of the children of every node, and their XML documents with entries interleaved with sibling elements), "
-                    "generated them with single-point mutants of the three encodings; the real encoders/decoders were run on all of "
+                    "generated them with single-point mutants of the three encodings (value spellings from the JSON grammar, module-prefixed spellings of the value "
+                    "at every scalar position, values / content of the wrong shape at every position of the document); the real encoders/decoders were run on all of "
                     "them, on every class string up to the length bound in three contexts and on seeded random bytes; every outcome "
                     "was judged by EncodingTrace")
     return ctx.finish(cov, [
-        "schemas are subsets of a 31-item menu (EncodingSets.tla): built-in types without restrictions, one augmenting module, one level of identity derivation",
+        "schemas are subsets of a 44-item menu (EncodingSets.tla): built-in types without restrictions (one pattern string), unions without / with an identityref member (one nested), "
+        "one choice with three cases (one shorthand), one augmenting module, one level of identity derivation",
         "collection sizes are 1, 2, 12, 13, 20, 40, 100 entries (one-item schemas) and 2, 13, 40 (larger schemas); at most 31 + entries sibling nodes under one parent",
         "values are canonical lexical forms; accepted but non-canonical numeric lexemes, white space around XML values, wrong member-name prefixes, trailing content after the XML root and empty leaf-list nodes are not judged",
         "plain JSON = RFC 7951 with unqualified names, all integers as numbers, empty as null",
@@ -249,10 +254,12 @@ PROPS = {"C19": run}
 MANIFEST = {
  "C19": dict(text="Encoding.tla holds data trees over a schema and abstract JSON / RFC 7951 / XML documents with Enc*/Dec* operators written "
              "from RFC 7951 and the RFC 6020 XML mapping rules, token-level recognisers, Conforms and NotAltered. TLC checks on every valid tree "
-             "of every one- and two-item schema of a 31-item menu (all built-in types with 64-bit extremes, decimal64, empty, foreign identities, "
-             "strings needing escaping, both list orderings, nesting, an augment; collections with 1 to 100 entries in several arrangements of the "
+             "of every one- and two-item schema of a 44-item menu (all built-in types with 64-bit extremes, decimal64, empty, foreign identities, "
+             "strings needing escaping, unions with and without identityref members, both list orderings, list keys and leaf-list entries of every type with a "
+             "lexical space of its own, nesting, an augment, members of the cases of a choice; collections with 1 to 100 entries in several arrangements of the "
              "sibling nodes, entries interleaved with siblings in XML) that decode(encode(t)) = t for the three codecs and classifies "
-             "every single-point mutant. TLC generates the schemas as YANG, the trees and the mutants; the harness runs the real encoders and "
+             "every single-point mutant, among them a value of every JSON kind (XML: every kind of content) at every position of the document and the "
+             "value at every scalar position spelled with a module prefix. TLC generates the schemas as YANG, the trees and the mutants; the harness runs the real encoders and "
              "decoders on them, on every token-class string to a length bound and on seeded random bytes (child processes, panic trap); "
              "EncodingTrace judges every recorded event: written document = predicted document, decoder outcome allowed by the spec, no panic, "
              "returned trees conform to the schema and carry only literals of the input.",
